@@ -719,5 +719,61 @@ def run(chk, prog):
                           % (q9.replace("vfps::", ""), i9["target"], ["%s, %s, is declared after it" % t_ for t_ in late9] or "ok"),
                           "init-order:%s::%s:%s" % (q9.replace("vfps::", ""), i9["target"], [t_[0] for t_ in late9]))
     chk.floor("R9-member-initialisers", n9, 100)
+    # ---- R10: an algorithm that writes through an iterator writes no more elements than its destination holds ----------------------------------------
+    # std::transform / std::copy over [A.begin(), A.end()) into OUT.begin() write size(A) elements: OUT must be A itself, or be sized from A
+    # in the same function (constructed or resized with A.size()), or the call must be under a test size(A) <= size(OUT)
+    def _range_container(first, last):
+        f_, l_ = A.strip(first), A.strip(last)
+        for n_ in (f_, l_):
+            while n_.get("k") in ("CXXConstructExpr", "MaterializeTemporaryExpr", "CXXBindTemporaryExpr", "CXXFunctionalCastExpr") and len(n_.get("args", n_.get("c", []))) == 1:
+                n_ = A.strip((n_.get("args") or n_.get("c"))[0])
+        def strip_(n_):
+            n_ = A.strip(n_)
+            while n_.get("k") in ("CXXConstructExpr", "MaterializeTemporaryExpr", "CXXBindTemporaryExpr", "CXXFunctionalCastExpr") and len(n_.get("args", n_.get("c", []))) == 1:
+                n_ = A.strip((n_.get("args") or n_.get("c"))[0])
+            return n_
+        f_, l_ = strip_(first), strip_(last)
+        if f_.get("k") == "CXXMemberCallExpr" and l_.get("k") == "CXXMemberCallExpr" and (f_.get("callee") or "").split("::")[-1] in ("begin", "cbegin") and \
+                (l_.get("callee") or "").split("::")[-1] in ("end", "cend") and A.call_object(f_) is not None and A.call_object(l_) is not None and \
+                A.show(A.strip(A.call_object(f_))) == A.show(A.strip(A.call_object(l_))):
+            return A.show(A.strip(A.call_object(f_))).replace(" ", ""), strip_
+        return None, strip_
+    n10 = 0
+    for fq in prog.functions.values():
+        if not fq.get("body") or not (fq["qname"].startswith("vfps::") or fq["qname"] == "main"):
+            continue
+        fidx10 = None
+        for x in A.walk(fq["body"]):
+            if x.get("k") != "CallExpr" or x.get("callee") not in ("std::transform", "std::copy", "std::copy_backward", "std::move") or len(x.get("args", [])) < 3:
+                continue
+            src_c, strip_ = _range_container(x["args"][0], x["args"][1])
+            if src_c is None:
+                continue
+            out_n = strip_(x["args"][-2] if x["callee"] == "std::transform" else x["args"][2])
+            if not (out_n.get("k") == "CXXMemberCallExpr" and (out_n.get("callee") or "").split("::")[-1] in ("begin", "data") and A.call_object(out_n) is not None):
+                continue
+            out_c = A.show(A.strip(A.call_object(out_n))).replace(" ", "")
+            n10 += 1
+            ok10 = out_c == src_c
+            why10 = "the destination is the source range itself" if ok10 else ""
+            if not ok10:
+                if fidx10 is None:
+                    fidx10 = A.index(fq)
+                szs = lambda c_: ("%s.size()" % c_)
+                for y in A.walk(fq["body"]):
+                    t_ = A.show(y).replace(" ", "") if y.get("k") in ("CXXMemberCallExpr", "DeclStmt", "CXXConstructExpr") else ""
+                    if y.get("id", 0) < x["id"] and y.get("k") == "CXXMemberCallExpr" and (y.get("callee") or "").endswith("::resize") and \
+                            A.show(A.strip(A.call_object(y))).replace(" ", "") == out_c and szs(src_c) in A.show(y["args"][0]).replace(" ", ""):
+                        ok10, why10 = True, "destination resized to the source's size before"
+                for c_ in A.enclosing(fidx10, x, {"IfStmt"}):
+                    ct = A.show(c_["cond"]).replace(" ", "")
+                    if any(ct_ in ct for ct_ in ("%s<=%s" % (szs(src_c), szs(out_c)), "%s>=%s" % (szs(out_c), szs(src_c)), "%s==%s" % (szs(src_c), szs(out_c)), "%s==%s" % (szs(out_c), szs(src_c)))) and \
+                            x["id"] in {z["id"] for z in A.walk(c_.get("then") or {})}:
+                        ok10, why10 = True, "under a test that the source is not longer than the destination"
+            chk.used(fq)
+            chk.check(ok10, "R10", A.loc(fq, x), "%s: %s writes size(%s) elements into %s: %s" % (fq["qname"].replace("vfps::", ""), x["callee"], src_c, out_c,
+                      why10 or "NOTHING relates the two sizes, a longer source writes past the end of the destination"),
+                      "iterator-write:%s:%s->%s" % (fq["qname"].replace("vfps::", ""), src_c, out_c))
+    chk.floor("R10-iterator-range-writes", n10, 1)
     chk.notes.append("C17: %d bounds obligations on the work arrays (symbolic max index vs. allocation extent), stream-extraction discipline, definite assignment "
                      "of scalar locals over all functions, foreign-container subscripts, guarded integer division. NOT decided: UB-freedom in general, libraries." % n1)
